@@ -6,7 +6,7 @@ ID=$1; WT=$2
 export CARGO_NET_OFFLINE=true
 cd "$WT" || exit 2
 [ -f _seed/patch.diff ] || { echo "no patch"; exit 2; }
-git stash -q -- src 2>/dev/null; git checkout -q -- src 2>/dev/null
+git checkout -q -- src 2>/dev/null
 git apply --check _seed/patch.diff || { echo "PATCH DOES NOT APPLY"; exit 1; }
 # demo without the change
 DEMO=$(ls _seed/*.rs 2>/dev/null | head -1)
